@@ -280,6 +280,11 @@ class GhostBytes(object):
     def __len__(self):
         raise TypeError("length of abstract file bytes")
 
+    def __add__(self, other):
+        from symx.core import OutOfReach
+        raise OutOfReach("the abstract file bytes are concatenated with other data: outside what this contract's ghost file can follow")
+    __radd__ = __add__
+
 
 class StubFile(object):
     def __init__(self):
@@ -293,7 +298,10 @@ class StubFile(object):
 
 
 @factory
-def elf_loadsegment(k):
+def elf_loadsegment(k, congruent=True):
+    """congruent: p_align is the page size and p_vaddr == p_offset modulo it (what linkers emit);
+    otherwise p_align is 1 (no alignment promised) and the two are unrelated modulo the page size:
+    the file-backed bytes must still land at their virtual addresses"""
     ps = 1 << k
 
     def body(V):
@@ -302,8 +310,11 @@ def elf_loadsegment(k):
         fs = V.int("filesz", 0, 1 << 24)
         ms = V.int("memsz", 0, 1 << 25)
         V.assume(ms >= fs)
-        V.assume(Eq(va % ps, off % ps))        # a well-formed loadable segment
-        seg = StubPhdr(p_type=ELF.PT_LOAD, p_vaddr=va, p_offset=off, p_filesz=fs, p_memsz=ms, p_align=ps)
+        if congruent:
+            V.assume(Eq(va % ps, off % ps))
+        else:
+            V.assume(off >= va % ps)           # the page that holds p_vaddr starts inside the file
+        seg = StubPhdr(p_type=ELF.PT_LOAD, p_vaddr=va, p_offset=off, p_filesz=fs, p_memsz=ms, p_align=ps if congruent else 1)
         e = _stub_elf([seg], StubFile())
         r = e.loadsegment(seg, ps)
         post = {"C15 one mapping": isinstance(r, dict) and len(r) == 1}
@@ -320,7 +331,7 @@ def elf_loadsegment(k):
             post["C15 every file-backed byte is present"] = And(data.size >= pre + fs, keep >= pre + fs)
             post["C15 bytes in [filesz, memsz) read as zero"] = And(keep <= pre + fs, total >= pre + ms) if True else True
         return post
-    return Obligation("F/elf/loadsegment/pagesize=2^%d" % k, body, ["C15"], ["amoco.system.elf:Elf.loadsegment"],
+    return Obligation("F/elf/loadsegment/pagesize=2^%d%s" % (k, "" if congruent else "/unaligned"), body, ["C15"], ["amoco.system.elf:Elf.loadsegment"],
                       mode="int", level="P", samples=20, hash_limit=0)
 
 
@@ -481,15 +492,20 @@ def _records_rt(tier, seed, only=None):
         addr = rng.randrange(0, 0xFF00)
         entry = None
         if kind == "hex":
-            if rng.random() < 0.4:
+            mode_ = rng.choice(("none", "ela", "seg"))
+            basea = 0
+            if mode_ == "ela":
                 up = rng.randrange(1, 0x100)
                 lines.append(hexline(4, 0, up.to_bytes(2, "big")))
-            else:
-                up = 0
+                basea = up << 16
+            elif mode_ == "seg":
+                sg = rng.choice((0x1000, 0x1001, 0x12F8, 0x0FFF, rng.randrange(1, 0xFFFF)))
+                lines.append(hexline(2, 0, sg.to_bytes(2, "big")))
+                basea = sg * 16
             for _ in range(rng.randint(1, 4)):
                 d = bytes(rng.getrandbits(8) for _ in range(rng.randint(1, 16)))
                 lines.append(hexline(0, addr, d))
-                recs.append(((up << 16) + addr, d))
+                recs.append((basea + addr, d))
                 addr = (addr + len(d) + rng.choice((0, 0, 7))) & 0xFFFF
             if rng.random() < 0.5:
                 entry = rng.getrandbits(32)
@@ -540,6 +556,114 @@ def _records_rt(tier, seed, only=None):
     return len(seeds), fails, samples, len(distinct)
 
 
+def _loader_case(seed):
+    """an ELF executable (i386 / x86-64, little endian) with 1-3 PT_LOAD segments laid out in distinct
+    pages, sharing a page, or adjacent mid-page; the file is filled with a position-dependent non-zero
+    pattern so a byte taken from a wrong file offset (or zeroed) is seen"""
+    from amoco.system.core import load_program
+    from contracts.rt import sig
+    rng = random.Random(seed)
+    x64 = rng.random() < 0.4
+    PS = 4096
+    layout = rng.choice(("distinct", "sharing", "adjacent", "single"))
+    nseg = 1 if layout == "single" else rng.choice((2, 3))
+    ehsize, phent = (64, 56) if x64 else (52, 32)
+    code = b"\xb8\x44\x33\x22\x11\xc3"          # mov eax,0x11223344 ; ret
+    base = (0x400000 if x64 else 0x08048000) + PS * rng.randrange(0, 16)
+    off = PS * rng.choice((0, 1)) + rng.choice((0, 0x10, 0x234)) + ehsize + 3 * phent
+    va = base + off % PS
+    segs = []
+    for k in range(nseg):
+        fs = rng.choice((7, 0x90, 0x123, 0x1230, PS, 2 * PS + 5))
+        last = k == nseg - 1
+        ms = fs + (rng.choice((0, 0x40, PS + 3)) if (last or layout == "distinct") else 0)
+        segs.append([off, va, fs, ms])
+        if layout == "adjacent":
+            off, va = off + fs, va + fs
+        elif layout == "sharing":
+            gap = rng.choice((1, 0x10, 0x1aa))
+            off, va = off + fs + gap, va + fs + gap
+        else:
+            step = ((ms + PS - 1) // PS + rng.choice((1, 2))) * PS + rng.choice((0, 0x10, 0xf10))
+            off, va = off + fs + step % PS + PS * rng.choice((0, 1)), va + step + fs
+            off += (va - off) % PS            # keep p_offset == p_vaddr modulo the page size
+    size = max(o + f for o, v, f, m in segs) + 64
+    img = bytearray(((i * 7 + (i >> 8) * 13) % 251) + 1 for i in range(size))
+    s0 = segs[0]
+    eoff = rng.randrange(0, max(1, s0[2] - len(code))) if s0[2] > len(code) else None
+    entry = s0[1] + (eoff or 0)
+    if eoff is not None:
+        img[s0[0] + eoff:s0[0] + eoff + len(code)] = code
+    ident = b"\x7fELF" + bytes([2 if x64 else 1, 1, 1, 0]) + b"\0" * 8
+    if x64:
+        eh = struct.pack("<HHIQQQIHHHHHH", 2, 62, 1, entry, ehsize, 0, 0, ehsize, phent, nseg, 64, 0, 0)
+    else:
+        eh = struct.pack("<HHIIIIIHHHHHH", 2, 3, 1, entry, ehsize, 0, 0, ehsize, phent, nseg, 40, 0, 0)
+    img[0:ehsize] = ident + eh
+    ph = b""
+    for o, v, f, m in segs:
+        if x64:
+            ph += struct.pack("<IIQQQQQQ", 1, 7, o, v, v, f, m, PS)
+        else:
+            ph += struct.pack("<IIIIIIII", 1, o, v, v, f, m, 7, PS)
+    img[ehsize:ehsize + len(ph)] = ph
+    img = bytes(img)
+    case = {"x64": x64, "layout": layout, "segments": [[hex(o), hex(v), f, m] for o, v, f, m in segs]}
+    bad = []
+    try:
+        p = load_program(img)
+    except Exception as ex:
+        return case, ["load_program raised %s" % sig(ex)]
+    for o, v, f, m in segs:
+        expected = img[o:o + f] + b"\0" * (m - f)
+        try:
+            got = p.state.mmap.read(v, m)
+        except Exception as ex:
+            bad.append("reading the segment at %#x raised %s" % (v, sig(ex)))
+            continue
+        if not all(isinstance(x, bytes) for x in got):
+            bad.append("segment at %#x: memory holds non-byte parts" % v)
+            continue
+        g = b"".join(got)
+        if g != expected:
+            first = [i for i in range(min(len(g), len(expected))) if g[i] != expected[i]]
+            where = first[0] if first else min(len(g), len(expected))
+            bad.append("segment %s layout: memory differs from the file mapping in the %s part" % (layout, "file-backed" if where < f else "zero-fill"))
+    pc = p.state(p.cpu.rip if x64 else p.cpu.eip)
+    if not pc._is_cst or int(pc) != entry:
+        bad.append("program counter is not the entry point")
+    if eoff is not None:
+        try:
+            i = p.read_instruction(entry)
+            if i is None or bytes(i.bytes) != code[:i.length] or i.mnemonic != "MOV":
+                bad.append("instruction fetched at the entry point is not the file's")
+        except Exception as ex:
+            bad.append("read_instruction raised %s" % sig(ex))
+    return case, bad
+
+
+def _loader_rt(tier, seed, only=None):
+    n = 150 if tier == "quick" else 5000
+    seeds = [only["seed"]] if only is not None else ["loader/%s/%d" % (seed, k) for k in range(n)]
+    fails, samples, distinct = [], [], set()
+    for sd in seeds:
+        case, bad = _loader_case(sd)
+        distinct.add((case["x64"], case["layout"], len(case["segments"])))
+        for b in bad[:3]:
+            fails.append(({"seed": sd, "sig": "loader:" + b[:60]}, "%s: %s" % (case, b)))
+        if len(samples) < 3:
+            samples.append(case)
+    return len(seeds), fails, samples, len(distinct)
+
+
+def loader_rt(tier):
+    return _RtGeneric("F/elf/loaded-image", ["C15"], ["amoco.system.core:load_program", "amoco.system.linux32.x86:OS.load_elf_binary", "amoco.system.linux64.x64:OS.load_elf_binary",
+                                                      "amoco.system.elf:Elf.loadsegment", "amoco.system.memory:MemoryMap.write", "amoco.system.memory:MemoryMap.read",
+                                                      "amoco.system.core:CoreExec.read_instruction"],
+                      _loader_rt, ("contracts.formats:loader_rt", {"tier": tier}),
+                      "synthesised i386 / x86-64 ELF executables with 1-3 loadable segments in distinct pages, page-sharing, adjacent; memory image, program counter and entry instruction compared with the file; distinct = (class, layout, segment count)", tier)
+
+
 def elf_rt(tier):
     return _RtGeneric("F/elf/synthesised-images", ["C14"], ["amoco.system.elf:Elf.__init__", "amoco.system.elf:Ehdr.unpack", "amoco.system.elf:Phdr", "amoco.system.elf:Shdr",
                                                             "amoco.system.elf:Elf.getfileoffset", "amoco.system.elf:Elf.data"],
@@ -567,4 +691,6 @@ def obligations(prop, tier, seed):
     if prop == "C15":
         for k in (8, 12, 16) if tier == "quick" else range(8, 17):
             obs.append(elf_loadsegment(k=k))
+            obs.append(elf_loadsegment(k=k, congruent=False))
+        obs.append(loader_rt(tier))
     return obs
